@@ -620,6 +620,8 @@ class MetaClass(object):
                 continue
             
             for other_inst in link.to_metaclass.query(kwargs):
+                if any(_is_null(other_inst, key) for key in kwargs):
+                    continue
                 relate(other_inst, inst, link.rel_id, link.phrase)
         
         for name, value in referential_attributes.items():
